@@ -404,6 +404,11 @@ func (e *enc) typeFacts(n string, t types.Type) {
 	case "Iface":
 		// interfaces never hold typed nil pointers (established at every MakeInterface: safe:typed-nil)
 		e.assume(fmt.Sprintf("(=> (is-IPtr %s) (> (iptr %s) 0))", n, n))
+		// a value of a non-empty interface type none of whose implementers is an uncomparable type
+		// can always be compared (error values, for instance)
+		if it, ok := t.Underlying().(*types.Interface); ok && it.NumMethods() > 0 && e.w.implsComparable(t) {
+			e.assume(fmt.Sprintf("(not (uncomparable %s))", n))
+		}
 		// dynamic type must be a possible one for the static interface type
 		if it, ok := t.Underlying().(*types.Interface); ok && it.NumMethods() > 0 {
 			if c := e.ifaceMembership(n, t); c != "" {
@@ -731,6 +736,9 @@ func (e *enc) havocHeap(keep func(string) bool) {
 		if e.w.stableArr(a) {
 			conds := []string{}
 			for _, r := range e.curCallRefs {
+				if e.w.frozenArr(a) {
+					break // frozen: not even the objects handed to the call change
+				}
 				conds = append(conds, fmt.Sprintf("(not (= r %s))", r))
 			}
 			c := "true"
